@@ -306,6 +306,7 @@ class GRPEngine(Engine):
         tp = (consumer.topic, consumer.partition)
         era = self.eras[-1] if self.eras else None
         inv = Inv(len(self.invocations), tp, [m.offset for m in msgs], self.tick, era)
+        inv.consumer = consumer
         self.invocations.append(inv)
         self._consumer_activity("processor entered for %s-%d offsets %r" % (tp[0], tp[1], inv.offsets[:3]), tp)
         mode = self.proc_stream.pop(0) if self.proc_stream else "sync_ok"
@@ -328,8 +329,14 @@ class GRPEngine(Engine):
         era = self.eras[-1] if self.eras else None
         # clause C17 (3) is judged for a failure while the member is a stable member running that consumer; a consumer that is being shut
         # down for a rejoin (or has already reported another failure) cannot report through its start() Deferred again: statistic only
-        if era is not None and inv.era is era and era.get("ended") is None and not self.joining and self.stop_called_tick is None and self.proc_error_tick is None:
+        # (whether that consumer can still report is read off its start Deferred - used only to decide applicability, never asserted on)
+        sd = getattr(getattr(inv, "consumer", None), "_start_d", None)
+        can_report = sd is not None and not sd.called
+        stable = era is not None and inv.era is era and era.get("ended") is None and not self.joining
+        if (stable or can_report) and self.stop_called_tick is None and self.proc_error_tick is None:
             self.proc_error_tick = self.tick
+            if not stable:
+                self.nt.add("processor-failed-while-consumers-shut-down-for-rejoin")
         else:
             self.labels.add("processor-failed-outside-stable-membership")
 
